@@ -489,7 +489,7 @@ def emit_coq(structs, flags, notes):
     for s in structs:
         L.append(f"(* {s['file']}: struct {s['name']}   derives: {', '.join(s['derives'])} *)")
         L.append(f"Definition {coq_ident(s['id'])} : structspec :=")
-        L.append(f"  mk_sspec {coq_str(s['id'])} {'true' if s['from'] else 'false'} {'true' if s['to'] else 'false'} [")
+        L.append(f"  mk_sspec {coq_str(s['id'])} {'true' if s['from'] else 'false'} {'true' if s['to'] else 'false'} {'true' if s['partial_eq'] else 'false'} [")
         rows = []
         for f in s["fields"]:
             key_comment = f["key"].replace("*)", "* )").replace("(*", "( *")
@@ -545,13 +545,15 @@ def emit_rust(structs):
             L.append("    " + re.sub(r"\n\s*", "\n    ", body))
             if not s["from"]:
                 # no FromDeb822: build the value field by field with FromStr (test structs only)
-                L.append(f"    pub fn build(vals: &[Option<String>]) -> Result<{s['name']}, String> {{")
+                L.append(f"    pub fn build(get: &dyn Fn(&str) -> Option<String>) -> Result<{s['name']}, String> {{")
                 L.append(f"        Ok({s['name']} {{")
                 for i, f in enumerate(s["fields"]):
+                    k = rust_lit(f['key'])
+                    perr = f'.map_err(|_| format!("parsing field {{}}: ", {k}))?'
                     if f["optional"]:
-                        L.append(f"            {f['ident']}: match &vals[{i}] {{ Some(x) => Some(x.parse::<{f['inner']}>().map_err(|_| {rust_lit(f['key'])}.to_string())?), None => None }},")
+                        L.append(f"            {f['ident']}: match get({k}) {{ Some(x) => Some(x.parse::<{f['inner']}>(){perr}), None => None }},")
                     else:
-                        L.append(f"            {f['ident']}: vals[{i}].as_ref().ok_or_else(|| {rust_lit(f['key'])}.to_string())?.parse::<{f['inner']}>().map_err(|_| {rust_lit(f['key'])}.to_string())?,")
+                        L.append(f"            {f['ident']}: get({k}).ok_or_else(|| format!(\"missing field: {{}}\", {k}))?.parse::<{f['inner']}>(){perr},")
                 L.append("        })")
                 L.append("    }")
             L.append("}")
